@@ -121,6 +121,72 @@ func (c *Ctx) HandlerSort() []core.Ob {
 			obs = append(obs, o)
 		}
 	}
+	// ... on every path: where a handler is appended to a table, the sort follows before the function
+	// returns, whatever the priorities are (a sort that is skipped "when all priorities are the default"
+	// leaves a default-priority handler behind an earlier one of negative priority)
+	sorts := func(cc *ssa.CallCommon) bool {
+		n := calleeName(cc)
+		if i := strings.Index(n, "["); i >= 0 {
+			n = n[:i]
+		}
+		if stableSorts[n] || unstableSorts[n] {
+			return true
+		}
+		if g := cc.StaticCallee(); g != nil && inPkgs(g, "bot") {
+			for _, ci := range callsIn(core.Origin(g), func(m string, _ *ssa.CallCommon) bool {
+				if i := strings.Index(m, "["); i >= 0 {
+					m = m[:i]
+				}
+				return stableSorts[m] || unstableSorts[m]
+			}) {
+				_ = ci
+				return true
+			}
+		}
+		return false
+	}
+	seen = map[*ssa.Function]bool{}
+	nApp := 0
+	var fl []*ssa.Function
+	for f := range reach {
+		f = core.Origin(f)
+		if !seen[f] {
+			seen[f] = true
+			fl = append(fl, f)
+		}
+	}
+	sortFns(fl)
+	for _, f := range fl {
+		if len(callsIn(f, func(n string, _ *ssa.CallCommon) bool { return n == "sort.Search" })) > 0 {
+			continue // sorted insertion: judged above
+		}
+		for _, b := range f.Blocks {
+			for _, in := range b.Instrs {
+				call, ok := in.(*ssa.Call)
+				if !ok {
+					continue
+				}
+				bi, isB := call.Call.Value.(*ssa.Builtin)
+				if !isB || bi.Name() != "append" {
+					continue
+				}
+				sl, isSl := call.Type().Underlying().(*types.Slice)
+				if !isSl || !isNamed(sl.Elem(), core.ModPath+"/bot", "PacketHandler") {
+					continue
+				}
+				nApp++
+				o := c.ordOb(fmt.Sprintf("handler-sort:after-append:%s#%d", core.FnName(f), nApp), "where a handler is appended to a table the sort follows on every path to the function's exit", f)
+				o.Pos = c.P.Pos(call.Pos())
+				if !mustFollow(f, call, func(x ssa.Instruction) bool {
+					ci, ok := x.(ssa.CallInstruction)
+					return ok && sorts(ci.Common())
+				}) {
+					o.Status, o.Got = core.Violated, "a path from the append to the exit skips the sort: a handler stays where it was appended, whatever its priority relative to the ones before it"
+				}
+				obs = append(obs, o)
+			}
+		}
+	}
 	if nSorts == 0 {
 		o := c.ordOb("handler-sort:none", "AddListener/AddGeneric keep handler tables sorted by priority", nil)
 		o.Status, o.Got = core.Violated, "no sort call reachable from AddListener/AddGeneric"
